@@ -391,6 +391,13 @@ pub fn oracle_c05(scn: &Scenario, t: &Trace, st: &mut ExploreStats) -> Vec<Viola
     if t.fault.is_none() && matches!(t.connect_result, Some(Ok(_))) {
         let last = tr.iter().rev().find(|r| r.kind != RecKind::Noidle || !r.ignored);
         let idle_last = last.map(|r| r.kind == RecKind::Idle).unwrap_or(false);
+        if idle_last && !t.server.idle_waiting && !t.server.dead {
+            out.push(Violation::new(
+                "C05/not-idling-at-drain",
+                format!("after everything was delivered and 3 ticks the server is not waiting in idle: the client's last idle was answered and it did not idle again (choices {:?})", t.choice_names()),
+                Value::Null,
+            ));
+        }
         if !idle_last {
             out.push(Violation::new("C05/not-idling-at-drain", format!("after everything was delivered and 3 ticks the last line written is {:?}", last.map(|r| show_bytes(&r.lines[0]))), Value::Null));
         }
